@@ -381,6 +381,77 @@ func init() {
 	})
 }
 
+// checkUnselected: f is a conditional whose unselected branch(es) would fail if
+// evaluated; it must evaluate, without error, to what `good` alone evaluates to.
+func checkUnselected(f, good string) string {
+	mk := func() map[string]interface{} {
+		sp := truthSpec()
+		sp["boom"] = spec.V{K: "func", F: &spec.Fn{Name: "boom", Ret: "nil", Err: "boom"}}
+		return spec.BuildMap(sp, &spec.Recorder{})
+	}
+	data := mk()
+	want := obs.EvalText(good, data)
+	got := obs.EvalText(f, data)
+	if got.Panic != nil || got.Err != nil {
+		return fmt.Sprintf("%s -> %s: only the selected branch (%s) is to be evaluated, the other one must not decide the outcome", f, got, good)
+	}
+	if got.String() != want.String() {
+		return fmt.Sprintf("%s = %s, want the selected branch %s = %s", f, got, good, want)
+	}
+	return ""
+}
+
+// TestC06Unselected: the branch that is not selected is not evaluated - even
+// when evaluating it would be an error.
+func TestC06Unselected(t *testing.T) {
+	bombs := []string{"missing()", "missing(1, 2)", "boom()", "null!.k", "nn!.k", "(1)()", "left('a', 0 - 1)", "m.zz.k()", "x = 1", "[missing()]", "rec(missing())", "missing() + 1"}
+	goods := []string{"1.50", "'x'", "m", "null", "t0"}
+	run := h.Begin("C06", "unselected", fmt.Sprintf("bounded-exhaustive: c ? a : b for every condition value of the exhaustive part x %d branches whose evaluation is an error (a call of an undefined name, a host function returning an error, '!.' on null, a call of a number, an assignment to a field, ...) placed in the position the condition does not select x %d harmless values in the selected one, plain and nested twice; oracle: no error, and the result equals the selected branch evaluated alone; every case non-trivial", len(bombs), len(goods)))
+	defer run.End(t)
+	var idx int64
+	for _, cnd := range sortedLeaves() {
+		truthy := truthLeaves[cnd].Truthy
+		for _, b := range bombs {
+			for _, g := range goods {
+				var forms []string
+				if truthy {
+					forms = []string{cnd + " ? " + g + " : " + b, cnd + " ? (" + cnd + " ? " + g + " : " + b + ") : " + b, "[" + cnd + " ? " + g + " : (" + b + ")]"}
+				} else {
+					forms = []string{cnd + " ? " + b + " : " + g, cnd + " ? " + b + " : (" + cnd + " ? " + b + " : " + g + ")", "[" + cnd + " ? (" + b + ") : " + g + "]"}
+				}
+				for k, f := range forms {
+					idx++
+					if !h.Mine(idx) || run.NViolations() >= 3 {
+						continue
+					}
+					want := g
+					if k == 2 {
+						want = "[" + g + "]"
+					}
+					run.Count(true, "?:")
+					if idx%331 == 0 {
+						run.Sample("unselected", f)
+					}
+					if msg := checkUnselected(f, want); msg != "" {
+						run.Fail("c06-unsel", [2]string{f, want}, msg)
+					}
+				}
+			}
+		}
+	}
+	run.Exhaustive()
+}
+
+func init() {
+	h.RegisterReplay("c06-unsel", func(raw json.RawMessage) string {
+		c, err := h.Decode[[2]string](raw)
+		if err != nil {
+			return "bad replay: " + err.Error()
+		}
+		return checkUnselected(c[0], c[1])
+	})
+}
+
 func tleaf(text string) *ref.Node {
 	switch {
 	case text == "null" || text == "true" || text == "false":
